@@ -141,7 +141,7 @@ def replay(prop: str, path: str) -> int:
         print(json.dumps(j, indent=1))
         print("replay: this file names a proof obligation or correspondence, there is no input to run")
         return 0
-    c = Case(cj.get("suite", "replay"), cj["lines"], None, cj.get("meta", {}))
+    c = Case(cj.get("suite", "replay"), cj["lines"], None, {k: v for k, v in cj.get("meta", {}).items() if k != "global_changed"})
     exec_cases(mod, [c])
     d = compare(mod, c)
     fails = safe_oracle(mod, c)
